@@ -67,6 +67,9 @@ DecValT(int, frac, exp, t) ==
                       tail |-> SAnyNonZeroAfter(all, z + m)]
 DecVal(int, frac, exp) == DecValT(int, frac, exp, T)
 
+\* m * 2^k as a value (exact)
+BinVal(m, k) == IF m = <<>> THEN [kind |-> "zero"] ELSE [kind |-> "bin", M |-> m, k |-> k]
+
 \* w * 10^q as a decimal value (w a BigNat, q any int)
 DecOfWQ(w, q) ==
   IF w = <<>> THEN [kind |-> "zero"]
@@ -81,7 +84,8 @@ CmpV(D, E, M, k) ==
 
 \* sign(value - M*2^k) for M > 0; 2 = cannot be decided from the digits kept
 CmpDV(dv, M, k) ==
-  IF dv.kind = "zero" THEN -1
+  IF dv.kind = "bin" THEN CmpScaled(dv.M, dv.k, M, k)        \* an exact binary value M * 2^k
+  ELSE IF dv.kind = "zero" THEN -1
   ELSE IF dv.kind = "huge" THEN 1
   ELSE IF dv.kind = "tiny" THEN -1
   ELSE LET c == CmpV(dv.D, dv.E, M, k) IN
@@ -155,7 +159,8 @@ RoundQ(F, Q, st, x) ==
 (* here (a boundary has far fewer than T significant digits), and Judge      *)
 (* reports "indet" independently if it ever happened.                        *)
 RN(F, dv) ==
-  IF dv.kind = "zero" \/ dv.kind = "tiny" THEN <<>>
+  IF dv.kind = "bin" THEN RoundQ(F, dv.M, FALSE, dv.k)
+  ELSE IF dv.kind = "zero" \/ dv.kind = "tiny" THEN <<>>
   ELSE IF dv.kind = "huge" THEN InfBits(F)
   ELSE IF dv.E >= 0 THEN
        LET N == Pow5Mul(dv.D, dv.E) IN
